@@ -7,6 +7,7 @@ use crate::{
     search_result::SearchResult,
     story::Story,
     story_error::StoryError,
+    story_state::StoryState,
     value_type::ValueType,
 };
 use std::rc::Rc;
@@ -67,6 +68,14 @@ impl Story {
         args: Option<&Vec<ValueType>>,
     ) -> Result<(), StoryError> {
         self.if_async_we_cant("call ChoosePathString right now")?;
+
+        // Reject an unknown path or unsupported arguments before touching any
+        // state, so that a failed call leaves the story exactly as it was.
+        Story::pointer_at_path(
+            &self.main_content_container,
+            &Path::new_with_components_string(Some(path)),
+        )?;
+        StoryState::validate_arguments(args)?;
 
         if reset_call_stack {
             self.reset_callstack()?;
@@ -141,6 +150,8 @@ impl Story {
 
             return Err(StoryError::BadArgument(e));
         }
+
+        StoryState::validate_arguments(args)?;
 
         // Snapshot the output stream
         let output_stream_before = self.get_state().get_output_stream().clone();
